@@ -391,6 +391,11 @@ func fromOrig(c common, orig any) (Manifest, error) {
 	if c.desc.Size == 0 {
 		c.desc.Size = int64(len(mj))
 	}
+	if _, ok := orig.(schema1.SignedManifest); !ok {
+		// the descriptor always describes the raw body, also when the caller supplied the raw body or a descriptor of a previous encoding
+		c.desc.Digest = c.desc.DigestAlgo().FromBytes(c.rawBody)
+		c.desc.Size = int64(len(c.rawBody))
+	}
 	// create manifest based on type
 	switch mOrig := orig.(type) {
 	case schema1.Manifest:
